@@ -357,6 +357,9 @@ func runRecord(path string, seed int64, ntraces, steps, na, ns, ripemd int, sum 
 			emit(act, p, ok, nil)
 			sum.Count(act.Op)
 			shape += act.Op[:2]
+			if !ok {
+				break // the trace is rejected at this event
+			}
 			if t == 0 && i < 4 {
 				sum.Sample(tl.M{"op": act.Op, "a": act.A, "k": act.K, "v": act.V, "st": p})
 			}
@@ -399,6 +402,17 @@ func main() {
 		sum.Mode = "replay"
 	case "record":
 		runRecord(*trace, seed, *n, *steps, *na, *ns, *ripemd, sum)
+	case "probe":
+		// TODO-KNOWN-FINDING (C13, pending coordinator decision): StateDB.SetCode journals the code
+		// CACHED in the state object, not the account's code; see spec/state/NOTES.md "Candidate finding".
+		// The probe reproduces it and reports it as a note, never as a violation.
+		lost := observe()
+		sum.Extra["setcode_revert_loses_uncached_code"] = lost
+		sum.Evaluations, sum.Distinct, sum.Steps = 2, 1, 2
+		sum.Rule = "probe of the raw SetCode/RevertToSnapshot pattern without a preceding code read"
+		if lost {
+			sum.Notes = append(sum.Notes, "candidate finding reproduced: Snapshot; SetCode(a, c2); RevertToSnapshot on an account whose code was not read before leaves the account WITHOUT code (expected: committed code)")
+		}
 	default:
 		tl.Fatal("bad mode")
 	}
@@ -406,4 +420,38 @@ func main() {
 	if len(sum.Violations) > 0 {
 		os.Exit(1)
 	}
+}
+
+// observe reproduces a behaviour of the raw StateDB API that lies outside the histories the
+// check generates (documented in spec/state/NOTES.md).  It returns true if the code of the
+// account is lost.
+func observe() bool {
+	u := &sk.Universe{NA: 1, NS: 1}
+	w := sk.World{{Ex: true, Nonce: 1, Bal: 1, Code: 1, St: []int64{1}}}
+	lost := false
+	for _, preload := range []bool{true, false} {
+		env := sk.NewEnv("hash", false)
+		m, err := sk.NewMachine(u, env, "cancun", w)
+		if err != nil {
+			tl.Fatal("%v", err)
+		}
+		addr := u.Addr(1)
+		m.Apply(sk.Act{Op: "BeginTx", A: 1})
+		id := m.SDB.Snapshot()
+		if preload {
+			m.SDB.GetCode(addr)
+		}
+		m.SDB.SetCode(addr, sk.Code(2), 0)
+		m.SDB.RevertToSnapshot(id)
+		got := sk.CodeID(m.SDB.GetCode(addr))
+		fmt.Printf("SetCode on an account whose code is only in the database (GetCode before: %v), then revert: code id now %d (committed code id 1)\n", preload, got)
+		if !preload && got != 1 {
+			lost = true
+		}
+		if preload && got != 1 {
+			tl.Fatal("probe: code lost although it was read before")
+		}
+		env.Close()
+	}
+	return lost
 }
